@@ -21,6 +21,8 @@
    layer are outside these theorems. *)
 From Coq Require Import List NArith ZArith Bool String Lia.
 From GmsmVerif Require Import Lib.Outcome Gen.X509Tables X509.CreateModel X509.CreateRun X509.SigAlgTables X509.CreateProofs.
+From GmsmVerif Require Import SM2.SM2Bytes SM2.SM2Spec SM2.DER SM2.SM2Model SM2.SM2SignProofs X509.CreateSM2Model X509.CreateSM2Proofs.
+From GmsmVerif Require EC.SM2Curve.
 Import ListNotations.
 Local Open Scope N_scope.
 
@@ -146,6 +148,64 @@ Example signing_examples :
   /\ create_model KCert SgRSA c_SM2WithSM3 = Err 2
   /\ create_model KCert (SgSM2 P256Sm2) 99 = Err 4.
 Proof. vm_compute. repeat split; reflexivity. Qed.
+
+(* ---------- 2b. created objects verify / are rejected, relative to C01 -------------------------------------
+   X509/CreateSM2Model.v composes the SM2 model of C01 into the byte-level path of an SM2 signer:
+   Sign over the raw TBS -> DER{r,s} -> BIT STRING, and checkSignature's strict DER{r,s} -> Sm2Verify. *)
+
+(* under SM2Facts (p, n prime; the group law; G of order n - premises of C01): for every private key
+   d in [1, n-2], every TBS and every random stream, the signature a Create* function stores
+   verifies under the issuer's public key [d]G *)
+Theorem created_verifies_sm2 :
+  EC.SM2Curve.SM2Facts -> forall fuel d tbs rho sig rho',
+    (1 <= d <= EC.SM2Curve.sm2_n - 2)%Z ->
+    create_signature_sm2 fuel (key_of d) tbs rho = Ok (sig, rho') ->
+    checkSignature_sm2 (ScalarBaseMult d) tbs sig = true.
+Proof. exact created_verifies_sm2_lemma. Qed.
+Print Assumptions created_verifies_sm2.
+
+(* what checkSignature accepts for ANY key, signed bytes and signature bytes: exactly the strict DER
+   encodings SEQUENCE{r,s} of pairs the SM2 verification of C01 accepts (C01_Sm2Verify_characterisation
+   spells that relation out; under a different key it is the relation for THAT key).  Every other
+   signature value - any changed byte, any non-canonical encoding, s+n, a surplus element - is rejected. *)
+Theorem created_rejects_changed_signature :
+  forall pub signed b, bytes_ok b ->
+    (checkSignature_sm2 pub signed b = true <->
+     exists r s, b = sig_encode r s /\ Sm2Verify pub signed [] r s = true).
+Proof. exact checkSignature_sm2_iff. Qed.
+Print Assumptions created_rejects_changed_signature.
+
+(* changed signed bytes: if the same signature is accepted for two TBS under one key, the two digests
+   SM3(Z || TBS) agree modulo n - a changed TBS is rejected unless SM3 collides modulo n *)
+Theorem created_rejects_changed_tbs :
+  forall pub tbs tbs' b, bytes_ok b ->
+    (0 <= fst pub < 2 ^ 256)%Z -> (0 <= snd pub < 2 ^ 256)%Z ->
+    checkSignature_sm2 pub tbs b = true -> checkSignature_sm2 pub tbs' b = true ->
+    (e_spec pub default_uid tbs mod EC.SM2Curve.sm2_n = e_spec pub default_uid tbs' mod EC.SM2Curve.sm2_n)%Z.
+Proof. exact created_rejects_changed_tbs_lemma. Qed.
+Print Assumptions created_rejects_changed_tbs.
+
+(* RSA and ECDSA (and any scheme) by contract: a primitive whose signatures verify under the matching
+   public key makes every created object verify, because the verifier runs the scheme the signer used *)
+Theorem created_verifies_by_contract :
+  forall (skey pkey : Type) (pub_of : skey -> pkey)
+         (prim_sign : scheme -> skey -> list N -> list N -> option (list N))
+         (prim_verify : scheme -> pkey -> list N -> list N -> bool),
+    (forall sch key tbs rho sig, prim_sign sch key tbs rho = Some sig -> prim_verify sch (pub_of key) tbs sig = true) ->
+    forall k s requested sch oid pss key tbs rho sig,
+      create_model k s requested = Ok (sch, oid, pss) ->
+      prim_sign sch key tbs rho = Some sig ->
+      exists sch', checkSignature_model (getSignatureAlgorithmFromAI_model oid pss) (vkey_of s) = Ok sch' /\
+                   prim_verify sch' (pub_of key) tbs sig = true.
+Proof. exact created_verifies_by_contract_lemma. Qed.
+Print Assumptions created_verifies_by_contract.
+
+(* non-vacuity: key d = 1, TBS 010203, a stream whose first nonce is 2: the Create* path produces a signature *)
+Example created_sm2_example :
+  exists sig, create_signature_sm2 2 (key_of 1) [1; 2; 3] (repeat 0 39 ++ [1]) = Ok (sig, [])
+              /\ checkSignature_sm2 (ScalarBaseMult 1) [1; 2; 3] (sig ++ [0]) = false
+              /\ checkSignature_sm2 (ScalarBaseMult 1) [1; 2; 3] [48; 6; 2; 1; 0; 2; 1; 5] = false.
+Proof. eexists. vm_compute. repeat split; reflexivity. Qed.
 
 (* what the correspondence runner evaluates (a table look-up, see X509/CreateRun.v) is the model *)
 Theorem runner_table_is_the_model :
